@@ -29,7 +29,7 @@ func init() {
 			"per-iteration index, each argument is coerced under WithPathContext(NewPathWithField(k)) for the same k it was read with; (directive-chain) directive closures form a chain in which each passes exactly " +
 			"its predecessor as `next`, the innermost is the resolver/unmarshal closure and the outermost is invoked exactly once; (layout-agreement, informational only) textual differences of Exec, Complexity, Schema, processDeferredGroup, " +
 			"introspectSchema/Type and the executionContext struct between the single-file and follow-schema layouts are reported as notes; (selections-private) the sub-selection merged for a response key reached through " +
-			"several fragments is only ever appended to itself, never aliased to a slice of the parsed document.",
+			"several fragments is only ever appended to itself, never aliased to a slice of the parsed document. (error-scan-total) graphql.HasFieldError/GetFieldErrors examine every recorded error and equalPath every path segment: their loops visit exactly [0,len) and are left early only towards the answer one element can decide.",
 		NotDecided:  "that responses equal the reference execution algorithm: field merging in CollectFields, @skip/@include evaluation, response-key order, __typename values, abstract-type dispatch — value-level",
 		Assumptions: []string{"naming contract of generated functions (_Type, _Type_field, field_T_f_args) is used only to find anchors, never as the verdict"},
 	})
